@@ -41,7 +41,20 @@ def main():
             except Exception as e:  # the implementation (or the harness) failed in an unexpected way
                 chk.oblige('corr:harness', 'correspondence', False, traceback.format_exc()[-1500:])
         chk.start_search(bool(chk.broken()))
-        mod.search(chk, bool(chk.broken()))
+        try:
+            mod.search(chk, bool(chk.broken()))
+        except (TypeError, AttributeError, KeyError, IndexError, NameError, ZeroDivisionError, RecursionError, AssertionError, OverflowError) as e:
+            # an exception of a kind the library never documents, raised from INSIDE the package while the oracle exercised it: that is an
+            # observation about the code (reported with the traceback as replay).  The same kinds raised by the harness itself, and the
+            # library's documented exceptions escaping the harness, stay internal errors (exit 2).
+            tb = traceback.extract_tb(e.__traceback__)
+            if tb and '/py_ballisticcalc/' in tb[-1].filename:
+                chk.failures.append(common.Failure('unexpected-exception:' + type(e).__name__,
+                                                   f'{type(e).__name__}: {e} raised inside {tb[-1].filename.split("/py_ballisticcalc/")[-1]}:{tb[-1].lineno} '
+                                                   f'({tb[-1].name}) while the property oracle exercised the library',
+                                                   {'op': 'exception', 'traceback': traceback.format_exc()[-3000:]}))
+            else:
+                raise
     except Exception:
         traceback.print_exc()
         sys.exit(2)
